@@ -64,9 +64,9 @@ class WFSA(base.WFSA):
         self = self.epsremove.renumber
 
         S = self.dim
-        start = np.full(S, self.R.zero)
-        arcs = {a: np.full((S, S), self.R.zero) for a in self.alphabet}
-        stop = np.full(S, self.R.zero)
+        start = np.full(S, self.R.zero, dtype=float)
+        arcs = {a: np.full((S, S), self.R.zero, dtype=float) for a in self.alphabet}
+        stop = np.full(S, self.R.zero, dtype=float)
 
         for i, w in self.I:
             start[i] += w
@@ -233,6 +233,10 @@ class Simple:
         )
 
     def forward_basis(self):
+        if not self.start.any():
+            # no initial weight: the forward space is trivial (a zero vector in
+            # the basis would make `proj` divide by zero)
+            return np.zeros((0, self.dim))
         worklist = [self.start]
         basis = [self.start]
         while worklist:
